@@ -85,10 +85,10 @@ Proof.
   intros E dvU dv1 dv2 Hc H1 H2 n t x u Hrt Hu.
   assert (R1 : structure E (mk_cfg true dv1 false false) n t u = Ok x).
   { apply (roundtrip E (mk_cfg true dvU false false) (mk_cfg true dv1 false false) false);
-      [reflexivity | reflexivity | reflexivity | reflexivity | reflexivity | apply mk_cfg_recheck | apply mk_cfg_kw_last | discriminate | exact Hc | exact H1 | exact Hrt | exact Hu]. }
+      [reflexivity | reflexivity | (intros X; discriminate X) | reflexivity | reflexivity | apply mk_cfg_recheck | apply mk_cfg_kw_last | discriminate | exact Hc | exact H1 | exact Hrt | exact Hu]. }
   assert (R2 : structure E (mk_cfg false dv2 false false) n t u = Ok x).
   { apply (roundtrip E (mk_cfg true dvU false false) (mk_cfg false dv2 false false) false);
-      [reflexivity | reflexivity | reflexivity | reflexivity | reflexivity | apply mk_cfg_recheck | apply mk_cfg_kw_last | discriminate | exact Hc | exact H2 | exact Hrt | exact Hu]. }
+      [reflexivity | reflexivity | (intros X; discriminate X) | reflexivity | reflexivity | apply mk_cfg_recheck | apply mk_cfg_kw_last | discriminate | exact Hc | exact H2 | exact Hrt | exact Hu]. }
   now rewrite R1, R2.
 Qed.
 Print Assumptions C06_nested_agree_on_valid_payloads.
